@@ -260,6 +260,11 @@ def stored_callable(F, f, push_node, q, R, _depth=0):
                     ev_ok = any(g.nodes[z] and g.nodes[z]['k'] == 'mem' and g.nodes[z].get('n') == evf[0]['n'] for z in a0dep)
                     mark_ok = len(cn['args']) >= 2 and need in g.expr(cn['args'][1])
                     verdict = (ev_ok and mark_ok, 'functor %s: passes its event member %s, source mark %s' % (rec['n'], 'ok' if ev_ok else 'NO', 'ok' if mark_ok else 'MISSING (%s)' % (g.expr(cn['args'][1]) if len(cn['args']) >= 2 else 'no source argument')))
+                    if q == 'MSGQ' and f.n == 'do_pre_msg_queue_helper' and len(cn['args']) >= 2:
+                        R.anchor('direct-mark:' + backend_of(f))
+                        okd = 'EVENT_SOURCE_DIRECT' in g.expr(cn['args'][1])
+                        R.ob('C06.direct-mark', okd, {'func': f.q, 'source': g.expr(cn['args'][1])})
+                        if not okd: R.find('C06.direct-mark', f, 'queued-direct-call', 'process_event() on a busy machine stores the event with source %s: the mark of a direct submission is lost, so a contained machine that finds no transition for it later does not call no_transition (and its container is not asked either)' % g.expr(cn['args'][1]), where=f.at(push_node))
             if verdict is not None:
                 R.ob('C04.target', verdict[0], {'func': f.q, 'queue': q, 'callable': verdict[1]})
                 if not verdict[0]: R.find('C04.target', f, 'stored-callable:' + q, 'element pushed on the %s: %s' % (q, verdict[1]), where=f.at(push_node))
@@ -304,6 +309,15 @@ def stored_callable(F, f, push_node, q, R, _depth=0):
         # the stored call records where the event will come from when it is dispatched: the message queue / the deferred queue
         # (that mark is what keeps the drain from re-entering itself and what single-stepping relies on)
         mark_ok = True; mark_txt = ''
+        if len(args) >= 4 and q == 'MSGQ' and f.n == 'do_pre_msg_queue_helper':
+            # C06.direct-mark: an event that process_event() could not dispatch at once (the machine was busy) is still a direct
+            # submission to THIS machine: the stored call keeps EVENT_SOURCE_DIRECT next to the queue mark.  Without it a contained
+            # machine treats the event, when it comes out of the queue, like one forwarded by its container and does not report
+            # no_transition for it - nobody does.  (enqueue_event() stores the queue mark alone: same for both back-ends.)
+            R.anchor('direct-mark:' + backend_of(f))
+            okd = 'EVENT_SOURCE_DIRECT' in f.expr(args[3])
+            R.ob('C06.direct-mark', okd, {'func': f.q, 'source': f.expr(args[3])})
+            if not okd: R.find('C06.direct-mark', f, 'queued-direct-call', 'process_event() on a busy machine stores the event with source %s: the mark of a direct submission is lost, so a contained machine that finds no transition for it later does not call no_transition (and its container is not asked either)' % f.expr(args[3]), where=f.at(push_node))
         if len(args) >= 4:
             e3 = f.expr(args[3])
             need = 'EVENT_SOURCE_MSG_QUEUE' if q == 'MSGQ' else 'EVENT_SOURCE_DEFERRED'
